@@ -437,6 +437,25 @@ func validateSecurityRequirement(ctx context.Context, input *RequestValidationIn
 				Err:    err,
 			}
 		}
+
+		// whatever the outcome, make sure we put the request body back into the `input`
+		defer func() {
+			var err error
+			// Put the data back into the input
+			input.Request.Body = nil
+			if input.Request.GetBody != nil {
+				if input.Request.Body, err = input.Request.GetBody(); err != nil {
+					input.Request.Body = nil
+				}
+			}
+			if input.Request.Body == nil {
+				input.Request.ContentLength = int64(len(data))
+				input.Request.GetBody = func() (io.ReadCloser, error) {
+					return io.NopCloser(bytes.NewReader(data)), nil
+				}
+				input.Request.Body, _ = input.Request.GetBody() // no error return
+			}
+		}()
 	}
 
 	// For each scheme for the requirement
@@ -484,23 +503,5 @@ func validateSecurityRequirement(ctx context.Context, input *RequestValidationIn
 		}
 	}
 
-	// if there was a request body, then make sure we put it back into the `input`
-	if data != nil {
-		var err error
-		// Put the data back into the input
-		input.Request.Body = nil
-		if input.Request.GetBody != nil {
-			if input.Request.Body, err = input.Request.GetBody(); err != nil {
-				input.Request.Body = nil
-			}
-		}
-		if input.Request.Body == nil {
-			input.Request.ContentLength = int64(len(data))
-			input.Request.GetBody = func() (io.ReadCloser, error) {
-				return io.NopCloser(bytes.NewReader(data)), nil
-			}
-			input.Request.Body, _ = input.Request.GetBody() // no error return
-		}
-	}
 	return nil
 }
